@@ -72,6 +72,8 @@ MOS = [
        lambda F: incremental_snapshot(F), functions=[("backup.rs", "create_incremental_backup"), ("backup.rs", "chain_snapshot_file")], role="incremental-omits-snapshot"),
     MO("O12.6/pitr_selection", "restore_point_in_time_with_options: the Full backup is the first (newest) one at or before the target, every chain hop is the first match of a scan of the newest-first list whose predicate requires parent == current and timestamp <= target",
        lambda F: pitr_selection(F), functions=[("backup.rs", "restore_point_in_time_with_options"), ("backup.rs", "list_backups_from_dir")], role="pitr-picks-wrong-backup"),
+    MO("O12.7/source_consistency", "create_full_backup / create_incremental_backup: fingerprint < archive write < re-check, and the checksum the metadata needs is set only on the re-check's Ok arm",
+       lambda F: source_consistency()(F), functions=[("backup.rs", "create_full_backup"), ("backup.rs", "create_incremental_backup"), ("backup.rs", "verify_source_fingerprints")]),
     MO("O12.1/limits", "archive header parser: the name buffer is allocated only for 0 < name_len <= MAX_NAME, Ok only for data_len <= MAX_SIZE, file count Ok only for count <= MAX_FILES — proved for all values (DECIDES)",
        lambda F: limits_decided(F), functions=[("backup.rs", "read_archive_member_header"), ("backup.rs", "read_archive_file_count")]),
     MO("O12.3/chain_order", "restore_from_backup_with_options: for an incremental target the chain pushed along the parent links is reversed exactly once before any archive is verified or extracted, and it is not re-ordered by any other key",
@@ -304,6 +306,35 @@ def pitr_selection(F):
     out.append(fc.only_via(FULL_SET, Arm(r"^call <BackupType as PartialEq>::eq$", {"otherwise"}, name="backup.backup_type == Full")))
     out.append(fc.never(NEXT, frm=FULL_SET))
     return out
+
+
+def source_consistency():
+    """create_full_backup / create_incremental_backup: the source files are fingerprinted before the archive is written and
+    re-checked after it; the checksum that goes into the backup metadata is set only on the Ok arm of that re-check (the
+    metadata takes it through `checksum.expect(..)`, so no metadata exists without a successful re-check)."""
+    from vlib.mirflow import origin as _o
+    cs = []
+    for f in ("backup::BackupManager::create_full_backup", "backup::BackupManager::create_incremental_backup"):
+        FP = call(r"= (backup::)?snapshot_source_fingerprints\(", name="snapshot_source_fingerprints")
+        WR = call(r"= (backup::)?write_backup_archive\(", name="write_backup_archive")
+        VF = call(r"= (backup::)?verify_source_fingerprints\(", name="verify_source_fingerprints")
+        SET = stmt(r"^_\d+ = (std::option::)?Option::<u32>::Some\(", name="checksum = Some(written_checksum)")
+        VF_OK = Arm(r"^discr\(call (backup::)?verify_source_fingerprints\)$", {"0"}, name="verify_source_fingerprints -> Ok")
+
+        def meta_checksum(F, f=f):
+            fc = FnCheck(F, f)
+            if fc.fn is None:
+                return fc.missing()
+            for b in fc.fn.blocks.values():
+                for st in b.stmts:
+                    m = re.search(r"BackupMetadata \{.*checksum: (?:copy |move )?(_\d+)", st)
+                    if m and not b.cleanup:
+                        o = _o(fc.fn, m.group(1))
+                        ok = bool(re.search(r"^call Option::<u32>::expect$", o))
+                        return Result("holds" if ok else "inconclusive", "metadata.checksum = %s" % o[:80], sample={"fn": fc.name, "kind": "PROVENANCE", "checksum": o[:100]})
+            return Result("inconclusive", "BackupMetadata construction not found in " + f)
+        cs += [precedes(f, FP, WR), precedes(f, WR, VF), only_via_call(f, SET, VF, VF_OK, why="the archive may mix two states of a file that changed while it was copied"), meta_checksum]
+    return allof(*cs)
 
 
 def clear_decision(F):
